@@ -34,11 +34,11 @@ def _checker_for(settings, cache):
     return cache[key]
 
 
-def render_full(src, checker):
+def render_full(src, checker, harvested=False):
     """[diagnostics, [(node key, [texts])...]] or ["EXC", class name] when the program cannot be checked (import failure)"""
-    from pa.run import check, Rec, inferred_map, norm_text, diag
+    from pa.run import check, Rec, inferred_map, norm_text, diag, test_module_factory
     try:
-        fails, tree = check(src, checker=checker, visitor_cls=Rec, want_tree=True)
+        fails, tree = check(src, checker=checker, visitor_cls=Rec, want_tree=True, module_factory=test_module_factory() if harvested else None)
     except Exception as e:
         return ["EXC", type(e).__name__]
     d = sorted(list(diag(f)) for f in fails)
@@ -103,11 +103,11 @@ def hsched(res, tier, lo, hi, nd, only=None):
         ck = _checker_for(settings, cache)
         S.policy.clear()
         S.reset_run()
-        base = render_full(src, ck)
+        base = render_full(src, ck, True)
         sites = dict(S.counts)
         sizes = dict(S.sizes)
         S.reset_run()
-        again = render_full(src, ck)
+        again = render_full(src, ck, True)
         res.transitions += 2
         case0 = {"mode": "hsched", "prog": pi, "name": name, "order": 2 * 10 ** 9 + pi * 1000}
         if again != base:
@@ -130,7 +130,7 @@ def hsched(res, tier, lo, hi, nd, only=None):
             S.policy.clear()
             S.policy.update(dev)
             S.reset_run()
-            got = render_full(src, ck)
+            got = render_full(src, ck, True)
             S.policy.clear()
             res.transitions += 1
             res.validated += 1
@@ -150,7 +150,7 @@ junk = [object() for _ in range(int(sys.argv[2]) * 3001)]
 sys.path.insert(0, sys.argv[1])
 from props import c10_harvest as h
 cache = {}
-out = [h.render_full(src, h._checker_for(st, cache)) for name, src, st in h.hcorpus()]
+out = [h.render_full(src, h._checker_for(st, cache), True) for name, src, st in h.hcorpus()]
 print("\n" + json.dumps(out))
 '''
 
@@ -200,7 +200,7 @@ def hhist(res, tier, firsts, in_child, only=None):
 
     def one(pi):
         clear_typing_caches()
-        return render_full(H[pi][1], _checker_for(H[pi][2], cache))
+        return render_full(H[pi][1], _checker_for(H[pi][2], cache), True)
     idx = list(range(len(H)))
     need = set(idx) if only is None else {only[1]}
     base = {pi: in_child(lambda pi=pi: one(pi)) for pi in sorted(need)}
